@@ -210,7 +210,10 @@ class C05(runner.Check):
       if viol:
         return viol
       a, b = states[j], states[j + 1]
-      if rec_state != a and rec_state != b:
+      if 'op-end' in img.get('tags', ()) and rec_state != b:
+        # The call had returned (was acknowledged) when this image was taken.
+        viol.append(('acknowledged-change-lost', 'image taken after the call returned: ' + self._diff(rec_state, b, b)))
+      elif rec_state != a and rec_state != b:
         if kind in ATOMIC:
           viol.append(('torn-single-resource-call', self._diff(rec_state, a, b)))
         else:
